@@ -88,6 +88,68 @@ class Scan(Family):
                 ctx.claim("closest", ctx.And(*conds), {"j": j, "i": i})
 
 
+def long_grids():
+    """long concrete arrays: uniform, 'regular with one missing sample' (first and last steps equal), random gaps"""
+    out = {}
+    for n in (33, 40, 65):
+        out["uniform%d" % n] = [i for i in range(n)]
+        out["one-missing%d" % n] = [i for i in range(n + 1) if i != n // 2]
+        out["two-missing%d" % n] = [i for i in range(n + 2) if i not in (3, n - 4)]
+        out["gaps%d" % n] = [4 * i + (i * i) % 3 for i in range(n)]        # strictly increasing, irregular gaps 2..6
+    return out
+
+
+class LongArray(Family):
+    name = "scan-long-concrete-array"
+    doc = "arrays of 33..65 concrete elements (beyond any small-size special case) with symbolic queries"
+    split_depth = 8
+
+    def configs(self, tier):
+        out = []
+        for name in sorted(long_grids()):
+            if tier == "quick" and not (name.endswith("33") or name.endswith("40")):
+                continue
+            for strat in ("lower", "higher", "closest"):
+                for nq in ((1,) if tier == "quick" else (1, 2)):
+                    out.append({"grid": name, "strategy": strat, "nq": nq, "fill": not (strat != "closest" and name.startswith("gaps"))})
+        return out
+
+    def run(self, ctx, inst, grid, strategy, nq, fill):
+        import traffic_weaver.sorted_array_utils as sau
+        import numpy as np
+        xs = long_grids()[grid]
+        nx = len(xs)
+        qs = ctx.reals("q", nq)
+        for a, b in zip(qs, qs[1:]):
+            ctx.assume(ctx.le(a, b))
+        xin = np.array(xs, dtype=float)
+        idx = sau.find_closest_element_indices_to_values(xin, arr(ctx, qs), strategy=strategy, fill_not_valid=fill)
+        X = [ctx.exact(float(v)) if not ctx.symbolic else ctx.const(v) for v in xs]
+        Q = [ctx.exact(v) for v in qs]
+        ctx.claim("dispatch:shape", len(idx) == nq)
+        for j in range(nq):
+            i, q = int(idx[j]), Q[j]
+            if strategy == "lower":
+                ok = ((not fill) and (q < X[0])) if i == -1 else (ctx.Or(ctx.And(X[i] <= q, True if i == nx - 1 else q < X[i + 1]),
+                                                                       ctx.And(q < X[0], i == 0 and fill)) if 0 <= i < nx else False)
+                ctx.claim("lower", ok, {"j": j, "i": i})
+            elif strategy == "higher":
+                ok = ((not fill) and (q > X[-1])) if i == nx else (ctx.Or(ctx.And(X[i] >= q, True if i == 0 else X[i - 1] < q),
+                                                                        ctx.And(q > X[-1], i == nx - 1 and fill)) if 0 <= i < nx else False)
+                ctx.claim("higher", ok, {"j": j, "i": i})
+            else:
+                if not (0 <= i < nx):
+                    ctx.claim("closest", False, {"j": j, "i": i})
+                    continue
+                # with a sorted array it is enough to compare with the two neighbours
+                conds = []
+                if i > 0:
+                    conds.append(_abs_lt(ctx, X[i] - q, X[i - 1] - q))
+                if i < nx - 1:
+                    conds.append(_abs_le(ctx, X[i] - q, X[i + 1] - q))
+                ctx.claim("closest", ctx.And(*conds), {"j": j, "i": i})
+
+
 class BadStrategy(Family):
     name = "bad-strategy"
     doc = "dispatcher rejects every strategy name other than the three documented ones"
@@ -206,7 +268,7 @@ def main():
     ap.add_argument("--tier", default="quick")
     a = ap.parse_args()
     META["second_engine"] = crosshair_second_engine
-    sys.exit(run_check("C10", "nearest-sample search", [Scan(), BadStrategy()], a.tier, META))
+    sys.exit(run_check("C10", "nearest-sample search", [Scan(), LongArray(), BadStrategy()], a.tier, META))
 
 
 if __name__ == "__main__":
